@@ -1,5 +1,9 @@
 """C11 - loan lifecycle and interest (DESIGN.md section 3, C11): BFS over operation histories of the real exchange."""
+import itertools
+from decimal import Decimal as D
+
 from checks import _exch_common as X
+from mc.framework import Result, h64
 
 PROPERTY = "C11"
 RULE = ("state = canonical key of the real exchange reached by an operation history (balances, holds, borrowed, open "
@@ -10,6 +14,7 @@ RULE = ("state = canonical key of the real exchange reached by an operation hist
 ASSUMPTIONS = [
     "amounts 1..3 units, price grid {30,90,100,110,300}, volumes {0,10,40,41.7,1e5}; configurations of "
     "checks/_exch_common.py (fee x liquidity x lending x precision x initial balances x 1-2 pairs)",
+    "interest grid: 3 percentages x 5 periods x 2 minimums x 2 interest symbols x 3 precisions x 5 principals x 4 price paths x ages 0..12; largest-first: every tuple of 2 (quick) / 3 (thorough) loan sizes x 6 proceeds levels x both sides, decided differentially",
     "strategy actions are issued after at least one bar (orders placed before the first event are a separate scenario)",
     "the synchronous driver is validated against the public-API driver on all short histories (conformance scenarios) "
     "and on every reported violation",
@@ -40,13 +45,154 @@ EXPLANATION = ("explicit-state BFS over operation histories with state de-duplic
                "public API under a real dispatcher) with identical complete observable state")
 
 
+# ---- interest grid: every (percentage, period, minimum, interest symbol, precision, principal, price path, age 0..12)
+PCTS = ("10", "2.5", "0.1")
+PERIODS = (3, 7, 10, 365, 0)
+PRECS = ((0, 2), (2, 2), (8, 8))
+PRICE_PATHS = ((7,), (5,), (6,), (7, 5, 6))  # bar shapes cycled while the loan ages: 100 / 300 / 30 / mixed
+
+
 def scenarios(tier, seed):
-    return X.plan(PROPERTY, tier, SPEC)
+    out = X.plan(PROPERTY, tier, SPEC)
+    for pct in PCTS:
+        for period in PERIODS:
+            for bp, qp in PRECS:
+                out.append(("interest-grid", pct, period, bp, qp))
+    for side in ("S", "B"):
+        for sizes in itertools.product((1, 2, 3), repeat=2 if tier == "quick" else 3):
+            out.append(("largest-first", side, sizes))
+    return out
+
+
+def _interest_grid(sc, res):
+    from worlds import exch, exch_bfs
+    exch.install_deterministic_ids()
+    _, pct, period, bp, qp = sc
+    found = []
+    for minint in (0, 1):
+        for isym in ("USD", "same"):
+            cfg = dict(lend=dict(req="0", isym=isym, period=period, minint=minint, pct=pct), fee=None, liq=None,
+                       init=(("USD", 100000), ("BTC", 1000)), bp=bp, qp=qp)
+            u = exch.unit(cfg)
+            loans = [("USD", "100"), ("USD", "33.33" if qp >= 2 else "33"), ("USD", "7"), ("BTC", str(u)), ("BTC", str(3 * u))]
+            for sym, amt in loans:
+                for path in PRICE_PATHS:
+                    prefix = [("bar", 0, path[0]), ("loan", sym, amt)]
+                    cyc = [("bar", 0, path[(k + 1) % len(path)]) for k in range(12)] + [("repay", 0)]
+                    exch_bfs.lasso(cfg, prefix, cyc, 1, [PROPERTY], res, lambda h, b, cfg=cfg: found.append((cfg, h, b)))
+    res.nontrivial |= res.states
+    if not res.samples:
+        res.samples.append(dict(kind="interest-grid", pct=pct, period_steps=period, precision=[bp, qp],
+                                example_history=[list(a) for a in prefix + cyc]))
+    for cfg, hist, bad in found:
+        for p, clause, detail in bad:
+            res.violation(f"{PROPERTY}:{clause}:interest-grid", f"{detail}; lending={cfg['lend']} precision=({bp},{qp}) "
+                          f"history={hist}", dict(kind="interest-grid", cfg=_jcfg(cfg), history=hist), size=len(hist))
+    return res
+
+
+def _jcfg(cfg):
+    return dict(cfg, init=[list(x) for x in cfg["init"]])
+
+
+# ---- largest-first, decided differentially (no hand-written expectation)
+def _lf_run(side, sizes, price_k, auto, order=None):
+    """side S: USD loans, a market SELL of 1 BTC whose proceeds (price) can afford some of them. side B: BTC loans, a
+    market BUY of n BTC. Everything else the account owns is locked by a far limit order, so only what the order
+    acquires can repay. auto=True: the order has auto_repay. auto=False: same order without auto_repay, followed at the
+    same timestamp by explicit repay_loan calls in the given order (failures ignored)."""
+    import basana as bs
+    from basana.backtesting import exchange as ex, lending, liquidity, errors
+    from worlds.exch import PAIRS, T, call, DAY
+    P = PAIRS[0]
+    d = bs.backtesting_dispatcher()
+    ls = lending.MarginLoans("USD", default_conditions=lending.MarginLoanConditions(
+        interest_symbol="USD", interest_percentage=D(10), interest_period=10 * DAY, min_interest=D(0),
+        margin_requirement=D(0)))
+    init = {"BTC": D(1)} if side == "S" else {"USD": D(100000)}
+    e = ex.Exchange(d, init, lending_strategy=ls, liquidity_strategy_factory=liquidity.InfiniteLiquidity)
+    e.add_bar_source(bs.FifoQueueEventSource())
+    e.set_symbol_precision("BTC", 0)
+    e.set_symbol_precision("USD", 2)
+    e.set_pair_info(P, bs.PairInfo(0, 2))
+
+    def bar(t, price):
+        d._set_now(T(t))
+        p = D(price)
+        call(e._on_bar_event(bs.BarEvent(T(t), bs.Bar(T(t - 1), P, p, p, p, p, D(1000)))))
+    bar(1, 100)
+    B, S = bs.OrderOperation.BUY, bs.OrderOperation.SELL
+    if side == "S":
+        lids = [call(e.create_loan("USD", D(50 * n))).id for n in sizes]
+        total = sum(50 * n for n in sizes)
+        call(e.create_limit_order(B, P, D(1), D(total)))          # locks all borrowed USD
+        call(e.create_market_order(S, P, D(1), auto_repay=auto))
+        bar(2, price_k)                                            # proceeds = price_k
+    else:
+        lids = [call(e.create_loan("BTC", D(n))).id for n in sizes]
+        call(e.create_limit_order(S, P, D(sum(sizes)), D(100000)))  # locks all borrowed BTC
+        call(e.create_market_order(B, P, D(price_k), auto_repay=auto))  # acquires price_k BTC
+        bar(2, 100)
+    if not auto:
+        for i in order:
+            try:
+                call(e.repay_loan(lids[i]))
+            except errors.Error:
+                pass
+    bal = {k: (v.available, v.hold, v.borrowed) for k, v in sorted(call(e.get_balances()).items())
+           if v.available or v.hold or v.borrowed}
+    loans = sorted((lo.borrowed_symbol, lo.borrowed_amount, lo.is_open, tuple(sorted(lo.paid_interest.items())))
+                   for lo in call(e.get_loans()))
+    return bal, loans
+
+
+def _largest_first(sc, res):
+    _, side, sizes = sc
+    ks = (40, 60, 110, 160, 220, 320) if side == "S" else (1, 2, 3, 4, 5, 6)
+    for k in ks:
+        a = _lf_run(side, sizes, k, True)
+        n = len(sizes)
+        orders = [p for p in itertools.permutations(range(n))
+                  if all(sizes[p[i]] >= sizes[p[i + 1]] for i in range(n - 1))]  # descending principal, every tie order
+        refs = [_lf_run(side, sizes, k, False, list(p)) for p in orders]
+        res.executions += 1 + len(refs)
+        res.transitions += 1 + len(refs)
+        res.states.add(h64((side, sizes, k, repr(a))))
+        if any(not lo[2] for lo in a[1]):
+            res.nontrivial.add(h64((side, sizes, k)))
+        case = dict(kind="largest-first", side=side, sizes=list(sizes), k=k)
+        if a not in refs:
+            res.violation(f"{PROPERTY}:largest-first", f"auto-repay order closed with loans {a[1]} / balances {a[0]}; "
+                          f"explicit largest-first repayment gives loans {refs[0][1]} / balances {refs[0][0]}; {case}", case,
+                          size=len(sizes))
+        else:
+            res.validated += 1
+        if not res.samples:
+            res.samples.append(dict(case, loans_after=[list(map(str, lo)) for lo in a[1]]))
+    res.outcomes[("largest-first", "done")] += 1
+    return res
 
 
 def run_scenario(sc, tier):
+    if sc[0] == "interest-grid":
+        return _interest_grid(sc, Result())
+    if sc[0] == "largest-first":
+        return _largest_first(sc, Result())
     return X.run_scenario(PROPERTY, sc, tier)
 
 
 def replay(rep):
+    if rep.get("kind") == "largest-first":
+        res = _largest_first(("largest-first", rep["side"], tuple(rep["sizes"])), Result())
+        return [v["message"] for v in res.violations if f"'k': {rep['k']}" in v["message"]]
+    if rep.get("kind") == "interest-grid":
+        from worlds import exch, exch_bfs
+        exch.install_deterministic_ids()
+        cfg = dict(rep["cfg"], init=tuple(tuple(x) for x in rep["cfg"]["init"]))
+        hist = [tuple(a) for a in rep["history"]]
+        print("config", cfg)
+        for a in hist:
+            print("   ", a)
+        out = exch_bfs.transition(cfg, hist[:-1], hist[-1], [PROPERTY])
+        return [f"{p}:{c}: {d}" for p, c, d in out[2]] if out else []
     return X.replay(PROPERTY, rep)
